@@ -15,6 +15,7 @@ package scheduler
 //@   ensures waiters_answered: old(h in s.torrentControls) ==> answered(old(s.torrentControls[h]))
 //@   ensures others_kept: forall k core.InfoHash :: k != h ==> ((k in s.torrentControls) <==> old(k in s.torrentControls)) && s.torrentControls[k] == old(s.torrentControls[k])
 //@   ensures sends_monotone: forall ch int :: sent(ch) >= old(sent(ch))
+//@   ensures same_table: s.torrentControls == old(s.torrentControls) && s.sched == old(s.sched)
 //@   loop 0 invariant mono: forall ch int :: sent(ch) >= old(sent(ch))
 //@   loop 1 invariant mono: forall ch int :: sent(ch) >= old(sent(ch))
 //@   loop 0 invariant progress: 0 - 1 <= rangeindex && rangeindex < len(ctrl.errors) && (forall j int :: 0 <= j && j <= rangeindex ==> sent(ctrl.errors[j]) >= 1)
@@ -25,8 +26,11 @@ package scheduler
 // C18: the preemption tick drops a torrent only if it has been idle for the seeder limit (no
 // piece served) or for the leecher limit (no piece received), measured on the scheduler's clock.
 //@ func preemptionTickEvent.apply
-//@   requires s != nil
+//@   requires s != nil && s.torrentControls != nil
+//@   requires forall k core.InfoHash :: k in s.torrentControls ==> s.torrentControls[k] != nil && allocated(s.torrentControls[k])
 //@   modifies *
+//@   loop 1 invariant table: s.torrentControls == old(s.torrentControls) && s.torrentControls != nil && s.sched == old(s.sched)
+//@   loop 1 invariant ctrls: forall k core.InfoHash :: k in s.torrentControls ==> s.torrentControls[k] != nil && allocated(s.torrentControls[k])
 //@   assert only_idle: at state.removeTorrent#0 :: (s.sched.clock.now - ctrl.dispatcher.obsRead >= s.sched.config.SeederTTI) || (s.sched.clock.now - ctrl.dispatcher.obsWrite >= s.sched.config.LeecherTTI)
 
 // ---- C17: no waiter of a Download call is lost -------------------------------------------------
